@@ -2,6 +2,7 @@
 package main
 
 import (
+	"verifh/lib"
 	"verifh/luagen"
 	"verifh/luaprop"
 )
@@ -19,7 +20,7 @@ func main() {
 		Corpus:    corpus,
 		VM:        true,
 		Isolate:   true,
-		Extra:     boundaryCases,
+		Extra:     func(w *lib.Writer, tier string, seed uint64) { boundaryCases(w, tier, seed); coLimits(w, tier, seed) },
 	})
 }
 
